@@ -30,7 +30,9 @@ META = {
     ],
     'assumptions': ['A1', 'A5', 'A7', 'arr and out are distinct arrays', '0 <= offset <= new - old (grow) resp. old - new (shrink) per axis'],
     'not_decided': ['ndim >= 3 (axis loop unrolled for ndim 1, 2: bounded-in ndim)',
-                    'ResizingOperator range construction (_resize_discr) and its weighted adjoint identity on non-uniformly weighted spaces',
+                    "the 2-d transpose for pad_mode 'order1' when BOTH axes grow (moment sums in both axes: the unit does not finish within 3000 s and is not run; the 1-d order1 "
+                    'transposes and the 2-d ones with one growing and one shrinking axis are proved)',
+                    'the weighted adjoint identity of ResizingOperator on non-uniformly weighted spaces',
                     'agreement with numpy.pad is implied by the rule-based specification only where numpy defines the same rule'],
 }
 
@@ -666,10 +668,10 @@ def units(tier, seed):
         for kind in ('grow', 'shrink'):
             us.append(unit_transpose_1d(mode, kind))
         for kinds in (('grow', 'shrink'), ('shrink', 'grow'), ('grow', 'grow')):
-            if mode == 'order1' and kinds == ('grow', 'grow') and tier != 'thorough':
-                continue        # > 100 s (moment sums in both axes): thorough tier only
+            if mode == 'order1' and kinds == ('grow', 'grow'):
+                continue        # moment sums in both axes: the unit no longer finishes within any practical limit (> 3000 s) - NOT decided, listed in META['not_decided']
             u = unit_transpose_2d(mode, kinds)
-            u.timeout = 3000 if tier == 'thorough' else 240
+            u.timeout = 900 if tier == 'thorough' else 240
             us.append(u)
         us.append(unit_crop(mode))
     us.append(unit_errors())
